@@ -247,7 +247,7 @@ def r5_shared_tokenizer(ctx):
     """the segments the normaliser writes are the ones the tokenizer yields: no loss or stray line break at a buffer
     boundary (C01.R3 exits/buffer conservation, C01.R5 strip set), and each Segment is built from the token as the
     tokenizer cut it (C01.R4: no further trimming of the text, source delimiters)"""
-    for fn in (c01.r3_tokenizer_exits, c01.r4_delimiter_provenance, c01.r5_strip_set, c01.r6_isa_not_subsplit, c01.r8_format_keeps_values):
+    for fn in (c01.r3_tokenizer_exits, c01.r4_delimiter_provenance, c01.r5_strip_set, c01.r6_isa_not_subsplit, c01.r8_format_keeps_values, c01.r11_reader_iteration):
         for o in fn(ctx):
             yield o
 
@@ -293,6 +293,13 @@ def r6_buffer_per_file(ctx):
     if n < 2:
         raise AnalysisError('x12norm.main: uses of the scratch buffer not found')
 
+def r7_shared_error_transport(ctx):
+    """the repair is triggered by the reader's count / HL errors, fetched with pop_errors once per segment: a discrepancy
+    that is not recorded (dropped as a repeat of the previous one), or a pending list that is not handed over cleanly,
+    leaves a wrong count in the output.  C04.R11 (shared)."""
+    for o in c04.r11_error_transport(ctx):
+        yield o
+
 
 RULES = [
     Rule('C20.R1', 'input is read by path through X12Reader, which opens it in a valid text read mode', r1_open_mode, floor=2),
@@ -301,5 +308,6 @@ RULES = [
     Rule('C20.R3b', 'shared with C04.R1: the reader counters the repair reads are reset/incremented where the envelope says', r3b_reader_counters, floor=37),
     Rule('C20.R4', 'segments re-formatted with source delimiters, once each, eol = LF or empty', r4_format, floor=3),
     Rule('C20.R5', 'shared with C01.R3-R6, R8: tokenizer exits, buffer conservation, strip set, Segment built from the untrimmed token, ISA not sub-split, format keeps every value', r5_shared_tokenizer, floor=14),
+    Rule('C20.R7', 'shared with C04.R11: every discrepancy is recorded and handed over exactly once', r7_shared_error_transport, floor=5),
     Rule('C20.R6', 'the scratch buffer is created per input file', r6_buffer_per_file, floor=2),
 ]
